@@ -83,9 +83,17 @@ class TmpStub:
         pass
 
 
+APP_CONN = {"on": False}      # the application (a middleware) sets a Connection header of its own on its responses
+
+
 def app(environ, start_response):
     body = b"ok"
-    start_response("200 OK", [("Content-Type", "text/plain"), ("Content-Length", str(len(body)))])
+    hdrs = [("Content-Type", "text/plain"), ("Content-Length", str(len(body)))]
+    if APP_CONN["on"]:
+        # a hop-by-hop header is the server's business: what the application says here must not change what the worker
+        # decided about the connection
+        hdrs.append(("Connection", "keep-alive"))
+    start_response("200 OK", hdrs)
     return [body]
 
 
@@ -195,6 +203,7 @@ class Sim:
         return not self.parent_dead
 
     def run(self):
+        APP_CONN["on"] = bool(self.p.get("app_conn"))
         self.main_g = greenlet.getcurrent()
         g = load_gthread()
         saved = (g.time, g.futures)
